@@ -1,7 +1,8 @@
 (* C05 — several types in one file: order-independent, idempotent, lossless merge.
    Property theorems only; each is closed by `exact` of a lemma from Proofs/. *)
 From TsRs Require Import Base.Str Base.Outcome Gen.Tables Model.Merge Model.MergeSpec.
-From TsRs Require Import Proofs.Merge_algebra_proofs Proofs.Merge_bridge_proofs.
+From TsRs Require Import Model.MergeConc.
+From TsRs Require Import Proofs.Merge_algebra_proofs Proofs.Merge_bridge_proofs Proofs.Merge_history_proofs.
 From Coq Require Import Sorting.Permutation Sorting.Sorted.
 
 (* The textual merge of the Rust code (Model/Merge.v, a statement-by-statement transcription on
@@ -66,6 +67,64 @@ Theorem C05_reexport_noop :
     export_raw st ident text = Ok st.
 Proof. intros st ident text old H1 H2. unfold export_raw. rewrite H1, H2. reflexivity. Qed.
 Print Assumptions C05_reexport_noop.
+
+(* ---- histories on one shared file (the statement of the property) ---------------------------
+   `good_history`: well-formed texts, distinct registry names, distinct sort keys, import groups in
+   the normal form generate_imports produces (excluded inputs are the known classes). *)
+
+(* whatever the order, the final file is byte for byte the canonical file: the notice, the union of
+   the imports (each name once, sorted), every declaration intact exactly once in key order *)
+Theorem C05_final_file_canonical :
+  forall h, h <> [] -> good_history h -> file_after h = Ok (Some (canonical_file h)).
+Proof. exact file_after_canonical. Qed.
+Print Assumptions C05_final_file_canonical.
+
+Theorem C05_order_independent :
+  forall h h', good_history h -> Permutation h h' -> file_after h = file_after h'.
+Proof. exact file_after_perm. Qed.
+Print Assumptions C05_order_independent.
+
+(* every prefix of every order: the canonical file of what was exported so far *)
+Theorem C05_prefixes :
+  forall h h' p rest, good_history h -> Permutation h h' -> h' = p ++ rest -> p <> [] ->
+    file_after p = Ok (Some (canonical_file p)).
+Proof. exact file_after_prefix. Qed.
+Print Assumptions C05_prefixes.
+
+(* exporting again something already exported changes nothing, wherever it happens *)
+Theorem C05_idempotent :
+  forall h1 h2 i, good_history (h1 ++ h2) -> In i h1 ->
+    file_after (h1 ++ i :: h2) = file_after (h1 ++ h2).
+Proof. exact file_after_reexport. Qed.
+Print Assumptions C05_idempotent.
+
+Theorem C05_lossless :
+  forall h i, good_history h -> In i h ->
+    exists pre post, file_after h = Ok (Some (pre ++ [nl] ++ it_block i ++ [nl] ++ post)).
+Proof. exact file_after_lossless. Qed.
+Print Assumptions C05_lossless.
+
+(* ---- concurrent threads: every complete schedule of the micro-step model (export_and_merge
+   under the registry mutex, Model/MergeConc.v) is equivalent to the serial history in the order in
+   which the threads took the mutex, hence ends with the canonical file *)
+Theorem C05_schedules_serializable :
+  forall items sched,
+    good_history items ->
+    all_done (run_schedule items sched) = true ->
+    let order := lock_order items sched in
+    Permutation order (seq 0 (length items)) /\
+    Ok (c_shared (run_schedule items sched))
+    = run_history f_init (map (fun k => nth k items {| it_ident := []; it_imports := []; it_block := [] |}) order).
+Proof. exact schedule_serializable. Qed.
+Print Assumptions C05_schedules_serializable.
+
+Theorem C05_schedules_confluent :
+  forall items sched,
+    items <> [] -> good_history items ->
+    all_done (run_schedule items sched) = true ->
+    f_content (c_shared (run_schedule items sched)) = Some (canonical_file items).
+Proof. exact schedule_confluent. Qed.
+Print Assumptions C05_schedules_confluent.
 
 (* Non-vacuity: three concrete items (doc comment, generics, overlapping imports) meet every
    hypothesis, and two different orders with a repetition give the canonical file. *)
